@@ -19,15 +19,19 @@ Qed.
 
 (* ---------------------------------------------------------------- pending changes *)
 (* object o belongs to the session and carries the unflushed value v for the row with primary key k *)
-Definition pending (s : st) (o : nat) (k : N) (v : Z) : Prop :=
+(* attribute val (w = false) or w (w = true) *)
+Definition pval (w : bool) (ob : obj) : option Z := if w then pendw ob else pend ob.
+Definition col (w : bool) (r : row) : Z := if w then snd r else fst r.
+Definition pending (w : bool) (s : st) (o : nat) (k : N) (v : Z) : Prop :=
   let ob := heap s o in
-  alive ob = true /\ pk ob = k /\ pend ob = Some v /\ in_del ob = false /\ (in_new ob = true \/ in_map ob = true).
+  alive ob = true /\ pk ob = k /\ pval w ob = Some v /\ in_del ob = false /\ (in_new ob = true \/ in_map ob = true).
+Lemma has_pend_of : forall w ob v, pval w ob = Some v -> has_pend ob = true.
+Proof. intros [] ob v H; unfold pval, has_pend in *; rewrite H; [destruct (pend ob)|]; reflexivity. Qed.
 
-Lemma pending_rooted : forall s o k v, Inv s -> pending s o k v -> rooted s o = true.
+Lemma pending_rooted : forall w s o k v, Inv s -> pending w s o k v -> rooted s o = true.
 Proof.
-  intros s o k v I (A & _ & P & _ & H). unfold rooted. rewrite A. simpl.
-  assert (R := okb_pending_rooted (heap s o) (i_ok s I o) A).
-  unfold has_pend in R. rewrite P in R. specialize (R eq_refl).
+  intros w s o k v I (A & _ & P & _ & H). unfold rooted. rewrite A. simpl.
+  assert (R := okb_pending_rooted (heap s o) (i_ok s I o) A (has_pend_of w _ v P)).
   assert (H' : in_new (heap s o) || in_map (heap s o) = true) by (destruct H as [H|H]; rewrite H; auto using orb_true_r).
   specialize (R H'). apply orb_true_iff in R. destruct R as [R|R].
   - rewrite R. rewrite orb_true_r. reflexivity.
@@ -35,9 +39,9 @@ Proof.
     rewrite R1, R2. simpl. repeat rewrite orb_true_r. reflexivity.
 Qed.
 
-Lemma pending_collect : forall s o k v l, Inv s -> pending s o k v -> pending (collect l s) o k v.
+Lemma pending_collect : forall w s o k v l, Inv s -> pending w s o k v -> pending w (collect l s) o k v.
 Proof.
-  intros s o k v l I P. unfold pending. rewrite (collect_keeps_rooted l s o I (pending_rooted s o k v I P)). exact P.
+  intros w s o k v l I P. unfold pending. rewrite (collect_keeps_rooted l s o I (pending_rooted w s o k v I P)). exact P.
 Qed.
 
 (* the operations by which an application loses its references, and any collector *)
@@ -58,9 +62,9 @@ Proof. intros s0 [i|i j| |l] s R; cbn [ref_step]; auto using r_op, r_collect. Qe
 Lemma reachable_ref_run : forall s0 h s, reachable s0 s -> reachable s0 (ref_run h s).
 Proof. induction h; intros s R; simpl; auto. apply IHh. apply reachable_ref_step. exact R. Qed.
 
-Lemma pending_ref_step : forall r s o k v, Inv s -> pending s o k v -> pending (ref_step r s) o k v.
+Lemma pending_ref_step : forall w r s o k v, Inv s -> pending w s o k v -> pending w (ref_step r s) o k v.
 Proof.
-  intros [i|i j| |l] s o k v I P; cbn [ref_step step fst].
+  intros w [i|i j| |l] s o k v I P; cbn [ref_step step fst].
   - exact P.
   - destruct (slot_get s i) as [x|]; cbn [fst]; [|exact P].
     unfold pending in *. cbn [heap upd set_heap]. destruct (Nat.eqb o x); [|exact P].
@@ -69,46 +73,69 @@ Proof.
   - apply pending_collect; auto.
 Qed.
 
-Lemma modified_never_collected : forall h s o k v, Inv s -> pending s o k v ->
-  pending (ref_run h s) o k v /\ Inv (ref_run h s).
+Lemma modified_never_collected : forall w h s o k v, Inv s -> pending w s o k v ->
+  pending w (ref_run h s) o k v /\ Inv (ref_run h s).
 Proof.
-  induction h as [|r h IH]; intros s o k v I P; simpl; auto.
+  intros w. induction h as [|r h IH]; intros s o k v I P; simpl; auto.
   apply IH; [apply inv_ref_step; auto|apply pending_ref_step; auto].
 Qed.
 
-Lemma flush_writes_pending : forall s o k v, Inv s -> pending s o k v -> db_get k (db (flush s)) = Some v.
+Lemma flush_writes_pending : forall w s o k v, Inv s -> pending w s o k v ->
+  option_map (col w) (db_get k (db (flush s))) = Some v.
 Proof.
-  intros s o k v I (A & Pk & P & D & H). subst k. apply (flush_writes s o v I A P D H).
+  intros w s o k v I (A & Pk & P & D & H). subst k.
+  destruct (flush_writes s o I A (has_pend_of w _ v P) D H) as (r & G & F1 & F2 & _).
+  rewrite G. simpl. f_equal. destruct w; [apply F2|apply F1]; exact P.
 Qed.
 
 Lemma rc_collect_db : forall s, db (rc_collect s) = db s.
 Proof. intros s. unfold rc_collect. apply (rc_iter_fields (S (nobj s)) s). Qed.
 
-Lemma flush_writes_dropped_changes : forall h s o k v, Inv s -> pending s o k v ->
-  db_get k (db (flush (ref_run h s))) = Some v /\
-  db_get k (db (fst (step_cpy Flush (ref_run h s)))) = Some v /\
-  db_get k (db (fst (step_cpy Commit (ref_run h s)))) = Some v.
+Lemma flush_writes_dropped_changes : forall w h s o k v, Inv s -> pending w s o k v ->
+  option_map (col w) (db_get k (db (flush (ref_run h s)))) = Some v /\
+  option_map (col w) (db_get k (db (fst (step_cpy Flush (ref_run h s))))) = Some v /\
+  option_map (col w) (db_get k (db (fst (step_cpy Commit (ref_run h s))))) = Some v.
 Proof.
-  intros h s o k v I P. destruct (modified_never_collected h s o k v I P) as [P' I'].
-  assert (F := flush_writes_pending _ o k v I' P').
+  intros w h s o k v I P. destruct (modified_never_collected w h s o k v I P) as [P' I'].
+  assert (F := flush_writes_pending w _ o k v I' P').
   repeat split; auto; unfold step_cpy; cbn [step fst compact set_heap db]; rewrite rc_collect_db; exact F.
 Qed.
 
-(* a change made through a reference is pending *)
-Lemma set_makes_pending : forall s i o, Inv s -> slot_get s i = Some o ->
+(* a change made through a reference - attribute set, or in-place change + flag_modified - is pending *)
+Lemma modev_pending : forall w s o, Inv s -> In (Some o) (slots s) ->
   in_del (heap s o) = false -> (in_new (heap s o) = true \/ in_map (heap s o) = true) ->
-  pending (fst (step (SetV i) s)) o (pk (heap s o)) (next_val s).
+  pending w (bump_val (upd o (modified_event w (next_val s)) s)) o (pk (heap s o)) (next_val s).
 Proof.
-  intros s i o I G D H. cbn [step]. rewrite G. cbn [fst].
-  assert (A : alive (heap s o) = true) by (apply (i_slots s I); apply (slot_get_In s i o G)).
+  intros w s o I G D H.
+  assert (A : alive (heap s o) = true) by (apply (i_slots s I); exact G).
   unfold pending. cbn [heap bump_val upd set_heap]. rewrite Nat.eqb_refl.
-  revert A D H. generalize (heap s o). intros ob A D H. unfold modified_event, modev_cond.
-  destruct ob; cbn in *.
+  revert A D H. generalize (heap s o). intros ob A D H. unfold modified_event, modev_cond, pval.
+  destruct w, ob; cbn in *;
   repeat match goal with |- context [if ?c then _ else _] => destruct c end; cbn; auto.
 Qed.
-Lemma new_is_pending : forall s i, pending (fst (step (New i) s)) (nobj s) (next_pk s) (next_val s).
+Lemma set_makes_pending : forall s i o, Inv s -> slot_get s i = Some o ->
+  in_del (heap s o) = false -> (in_new (heap s o) = true \/ in_map (heap s o) = true) ->
+  pending false (fst (step (SetV i) s)) o (pk (heap s o)) (next_val s) /\
+  pending true (fst (step (SetW i) s)) o (pk (heap s o)) (next_val s) /\
+  (in_val (heap s o) = true -> pending false (fst (step (Mut i) s)) o (pk (heap s o)) (next_val s)).
 Proof.
-  intros s i. cbn [step fst]. unfold pending. cbn. rewrite Nat.eqb_refl. cbn. repeat split; auto.
+  intros s i o I G D H. assert (Hin := slot_get_In s i o G). cbn [step]. rewrite G. cbn [fst].
+  split; [apply modev_pending; auto|]. split; [apply modev_pending; auto|].
+  intros V. rewrite V. cbn [fst]. apply modev_pending; auto.
+Qed.
+Lemma new_is_pending : forall s i, pending false (fst (step (New i) s)) (nobj s) (next_pk s) (next_val s).
+Proof.
+  intros s i. cbn [step fst]. unfold pending, pval. cbn. rewrite Nat.eqb_refl. cbn. repeat split; auto.
+Qed.
+
+(* a partial expire discards the change of the named attribute only: the change of the other attribute
+   stays pending (and the object stays pinned: Inv) *)
+Lemma partial_expire_keeps_other : forall w s i o k v, Inv s -> slot_get s i = Some o ->
+  pending w s o k v -> pending w (fst (step (ExpireAttr i (negb w)) s)) o k v.
+Proof.
+  intros w s i o k v I G P. cbn [step]. rewrite G. destruct (persistent (heap s o)); cbn [fst]; [|exact P].
+  unfold pending in *. cbn [heap upd set_heap]. rewrite Nat.eqb_refl.
+  revert P. generalize (heap s o). intros ob P. unfold expire_attr, pval in *. destruct w, ob; cbn in *; exact P.
 Qed.
 
 (* ---------------------------------------------------------------- identity map *)
@@ -117,9 +144,9 @@ Lemma map_consistent : forall s o, Inv s -> in_map (heap s o) = true ->
 Proof.
   intros s o I M. split; [apply map_alive; auto|]. split; [apply (i_map_row s I); auto|apply lookup_unique; auto].
 Qed.
-Lemma pending_identity_stable : forall s o k v, Inv s -> pending s o k v -> in_map (heap s o) = true ->
+Lemma pending_identity_stable : forall w s o k v, Inv s -> pending w s o k v -> in_map (heap s o) = true ->
   lookup k s = Some o.
-Proof. intros s o k v I (_ & Pk & _) M. subst k. apply lookup_unique; auto. Qed.
+Proof. intros w s o k v I (_ & Pk & _) M. subst k. apply lookup_unique; auto. Qed.
 
 (* ---------------------------------------------------------------- release *)
 Lemma rooted_false_of : forall s o, app_ref s o = false -> unrooted_local (heap s o) = true -> rooted s o = false.
